@@ -1,6 +1,7 @@
 #!/bin/bash
 # usage: tools/mut.sh "<sed expr>" <file relative to src/finam> <check ids...>
 # runs the given checks against a scratch copy of /repo/src with the sed edit applied
+export VERIF_EVIDENCE=${VERIF_EVIDENCE:-/verif/.scratch/evidence_seeded}; mkdir -p $VERIF_EVIDENCE/replays
 set -e
 D=$(mktemp -d /tmp/mut.XXXXXX)
 cp -r /repo/src $D/src
